@@ -59,6 +59,10 @@ func dirDigest(dir string) string {
 
 var cpus = []int{1, 2, 3, 4, 8, 16}
 
+// a user-defined aggregate with an extra parameter evaluated per row, and a user-defined scalar function
+const udaProlog = "DECLARE pick AGGREGATE (c, @w) AS BEGIN VAR @best := NULL; VAR @v; WHILE @v IN c DO IF @best IS NULL OR @v * @w > @best THEN @best := @v * @w; END IF; END WHILE; RETURN @best; END;\n"
+const udfProlog = "DECLARE twice FUNCTION (@x) AS BEGIN RETURN @x * 2; END;\n"
+
 func run(seed int64, n int, dir string, _ []string) {
 	g := hc.NewGen(seed)
 	o := hc.NewOut(dir)
@@ -120,12 +124,21 @@ func run(seed int64, n int, dir string, _ []string) {
 		nsmall := g.Intn(30) + 1
 		nb := g.Intn(9) + 2
 		big := make([][]string, nbig)
+		blockwise := r%2 == 1 // keys in contiguous blocks: whole worker chunks of the left table then have no partner
 		for i := range big {
-			big[i] = []string{fmt.Sprint(i), fmt.Sprint(g.Intn(50) - 10), fmt.Sprint(g.Intn(nb)), g.Pick("x", "y", "z", "X", " x", "")}
+			b := g.Intn(nb)
+			if blockwise {
+				b = i * nb / nbig
+			}
+			big[i] = []string{fmt.Sprint(i), fmt.Sprint(g.Intn(50) - 10), fmt.Sprint(b), g.Pick("x", "y", "z", "X", " x", "")}
 		}
 		small := make([][]string, nsmall)
 		for i := range small {
-			small[i] = []string{fmt.Sprint(i), fmt.Sprint(g.Intn(nb + 2)), g.Pick("p", "q", "")}
+			b := g.Intn(nb + 2)
+			if blockwise {
+				b = []int{0, nb - 1, nb + 1}[g.Intn(3)] // only the first and the last block find partners
+			}
+			small[i] = []string{fmt.Sprint(i), fmt.Sprint(b), g.Pick("p", "q", "")}
 		}
 		base := filepath.Join(scratch, fmt.Sprintf("c12-%d", r))
 		_ = os.MkdirAll(base, 0o755)
@@ -150,6 +163,11 @@ func run(seed int64, n int, dir string, _ []string) {
 			"SELECT id FROM big WHERE b IN (SELECT b FROM small WHERE d = 'p')",
 			"SELECT id, (SELECT COUNT(*) FROM small s WHERE s.b = big.b) AS n FROM big WHERE id < 40",
 			"SELECT b, MEDIAN(a), COUNT(DISTINCT c) FROM big GROUP BY b ORDER BY b LIMIT 5 WITH TIES",
+			"SELECT id, SUM(a) OVER (ORDER BY id) AS s, LAG(a) OVER (ORDER BY id) AS l, RANK() OVER (ORDER BY a DESC) AS rk, LISTAGG(c, ',') OVER (PARTITION BY b) AS la FROM big",
+			"SELECT id, FIRST_VALUE(a) OVER (PARTITION BY b ORDER BY id ROWS BETWEEN 1 PRECEDING AND 1 FOLLOWING) AS f, NTILE(3) OVER (PARTITION BY c ORDER BY id) AS nt, CUME_DIST() OVER (PARTITION BY b ORDER BY a) AS cd FROM big",
+			udaProlog + "SELECT id, pick(id, a) OVER (PARTITION BY b) AS p, pick(a, id) OVER (PARTITION BY c ORDER BY id) AS q FROM big",
+			udaProlog + "SELECT b, pick(id, 1), pick(a, 2) FROM big GROUP BY b",
+			udfProlog + "SELECT id, twice(a) AS t FROM big WHERE twice(b) > 2",
 		}
 		dml := []string{
 			"UPDATE big SET c = 'u' WHERE b = 1; COMMIT;",
@@ -165,7 +183,14 @@ func run(seed int64, n int, dir string, _ []string) {
 				for rep := 0; rep < 2; rep++ {
 					pr := hc.NewProc(base)
 					pr.SetCPU(cpu)
-					v, err := pr.Query(q)
+					qq := q
+					if k := strings.LastIndex(q, ";\n"); k >= 0 {
+						if _, e := pr.Exec(q[:k+1]); e != nil {
+							o.Law("prolog_error", e.Error())
+						}
+						qq = q[k+2:]
+					}
+					v, err := pr.Query(qq)
 					d := "E:"
 					if err == nil {
 						d = viewDigest(v)
@@ -215,6 +240,8 @@ func run(seed int64, n int, dir string, _ []string) {
 			o.Eval()
 			o.NonTrivial(fmt.Sprintf("d%d:%d", di, k))
 		}
-		_ = os.RemoveAll(base)
+		if os.Getenv("C12_KEEP") == "" {
+			_ = os.RemoveAll(base)
+		}
 	}
 }
